@@ -37,6 +37,9 @@ type scOps struct {
 	callN     int
 	obs       couchbase.Observer
 	ready     bool
+	stage     int // MetaSave: which link of a vBucket's request chain is scripted
+	counted   map[int]bool
+	perKey    map[string]int
 }
 
 var opNames = []string{"CreateDocument", "UpdateDocument", "DeleteDocument", "UpsertXattrs", "GetXattrs", "Get", "CreatePath",
@@ -62,6 +65,11 @@ func (s *scOps) Configure(w *World) {
 	s.ops = []string{Pick(t, opNames, nil)}
 	s.behaviour = Pick(t, opBehaviours, nil)
 	s.target = t.Draw(2, nil)
+	if s.ops[0] == "MetaSave" {
+		// the save of one vBucket is a chain (xattr write, not found, create, xattr write): script any link of it
+		s.stage = t.Draw(3, nil)
+		c.Extra["stage"] = fmt.Sprint(s.stage)
+	}
 	c.Extra["op"], c.Extra["behaviour"] = s.ops[0], s.behaviour
 	if t.Draw(3, nil) == 0 {
 		// the goroutine that issued the operation is pre-empted before it waits for the completion: the reply
@@ -253,6 +261,7 @@ func (s *scOps) runOp(w *World, name string, underTest bool) {
 		tst = s.behaviour
 		s.callT, s.deadline = time.Duration(w.now()), deadline
 		s.seen, s.handled = 0, false
+		s.counted, s.perKey = nil, nil
 	}
 	if underTest && name == "MetaLoad" && s.behaviour != "prompt" {
 		// Load reports a failed read by terminating the process
@@ -332,13 +341,29 @@ func (s *scOps) BeforeStep(w *World) {
 	var cands []*Req
 	for _, c := range w.sortedConns() {
 		for _, q := range c.queue {
-			if s.isOpRequest(q) {
+			if s.isOpRequest(q) && !s.counted[q.arr] {
 				cands = append(cands, q)
 			}
 		}
 	}
 	// canonical order by identity: the library sends the requests of one call in map-iteration order
 	sort.Slice(cands, func(i, j int) bool { return cands[i].id < cands[j].id })
+	if s.stage > 0 {
+		// keep only requests that are the stage-th of their key
+		var el []*Req
+		for _, q := range cands {
+			if s.counted == nil {
+				s.counted, s.perKey = map[int]bool{}, map[string]int{}
+			}
+			s.counted[q.arr] = true
+			k := string(q.pkt.Key)
+			if s.perKey[k] == s.stage {
+				el = append(el, q)
+			}
+			s.perKey[k]++
+		}
+		cands = el
+	}
 	if len(cands) > 0 {
 		hit = cands[min(s.target, len(cands)-1)]
 	}
